@@ -42,6 +42,11 @@ def pv(x) -> str:
         return f"f:{show_rat(float(x))}"
     if isinstance(x, str):
         return f"s:{x}"
+    if type(x).__module__ == "bblean._merges" or hasattr(x, "__call__") and hasattr(x, "name") and not isinstance(x, type):
+        # a merge-function object: class name and its instance attributes in sorted order (at most three)
+        attrs = [a for a in ("decay", "offset", "tolerance") if a in getattr(x, "__dict__", {})]
+        vals = [pv(float(getattr(x, a))) for a in attrs] + ["none"] * (3 - len(attrs))
+        return "o|" + type(x).__name__ + "|" + "|".join(vals)
     if isinstance(x, list):          # a Python list of ints (mol_indices)
         return "a:big:" + (",".join(str(int(v)) for v in x) or "-")
     raise TypeError(type(x))
@@ -182,10 +187,7 @@ def suite_gen(which: set[str]):
                         o = call_real(M.get_merge_accept_fn, name, tol)
                     finally:
                         M.np = np
-                    if isinstance(o, str):
-                        real = o
-                    else:
-                        real = tuple([type(o).__name__] + [float(getattr(o, a)) for a in ("decay", "offset", "tolerance") if hasattr(o, a)])
+                    real = o
                     compare("get_merge_accept_fn", [name if name else "@s:", tol], real, exp_tab=proxy.calls)
                 if "pages" in which:
                     P = 4096 * 512
@@ -282,9 +284,84 @@ def suite_gen(which: set[str]):
                             r = call_real(c.merge_subcluster, sb, thr, fn)
                         finally:
                             M.np = np
-                        obj = [type(fn).__name__] + [float(getattr(fn, a)) for a in ("decay", "offset", "tolerance") if hasattr(fn, a)]
-                        args = list(st_c) + list(st_s) + [thr] + obj
+                        args = list(st_c) + list(st_s) + [thr, fn]
                         compare("_BFSubcluster_merge_subcluster", args, r if isinstance(r, str) else (r,) + state(c), exp_tab=proxy.calls)
+            if "config" in which:
+                import bblean as BBL
+                crits = list(M.BUILTIN_MERGES)
+
+                def rand_crit():
+                    r = rng.random()
+                    if r < 0.25:
+                        return None
+                    if r < 0.65:
+                        return rng.choice(crits + ["no-such-criterion"])
+                    k = rng.choice(["std", "nonadaptive", "nmax", "legacy", "plain"])
+                    t = rng.choice([0.0, 0.05, 0.3])
+                    if k == "std":
+                        return M.get_merge_accept_fn(rng.choice(crits), t)
+                    if k == "nonadaptive":
+                        return M.ToleranceDiameterMerge(t, adaptive=False)
+                    if k == "nmax":
+                        return M.ToleranceRadiusMerge(t, n_max=10, decay=0.5)
+                    if k == "legacy":
+                        return M.ToleranceMerge(t)
+                    return rng.choice([M.RadiusMerge, M.DiameterMerge])()
+
+                def cfg_of(est):
+                    return (est.threshold, est.branching_factor, est._merge_accept_fn)
+                for _ in range(N):
+                    thr0 = rng.choice([0.3, 0.65, 0.9])
+                    bf0 = rng.choice([2, 50])
+                    c0, t0 = rand_crit(), rng.choice([None, None, 0.0, 0.2])
+                    proxy = NpProxy()
+                    M.np = proxy
+                    try:
+                        try:
+                            est = BBL.BitBirch(threshold=thr0, branching_factor=bf0, merge_criterion=c0, tolerance=t0)
+                            real = (None,) + cfg_of(est)
+                        except ValueError:
+                            est, real = None, "ERR:ValueError"
+                        mdl_args = [thr0, bf0, c0, t0, None]
+                        if real == "ERR:ValueError":
+                            # the half-built object is not observable: compare the status only
+                            d.cmd("GENEXP tab=" + (";".join(f"{k}={v}" for k, v in proxy.calls.items()) or "-"))
+                            m = d.cmd("GEN BitBirch_init " + " ".join(pv(a) for a in mdl_args)).split(" ")[0]
+                            res.evaluations += 1
+                            cnt["BitBirch_init"] = cnt.get("BitBirch_init", 0) + 1
+                            if m != "err:ValueError" and res.disagreement is None:
+                                res.disagreement = {"what": "generated BitBirch_init accepts what the constructor refuses",
+                                                    "args": [pv(a) for a in mdl_args], "model": m, "impl": "err:ValueError"}
+                            continue
+                        compare("BitBirch_init", mdl_args, real, exp_tab=proxy.calls)
+                        compare("BitBirch_tolerance", list(cfg_of(est)), est.tolerance)
+                        compare("BitBirch_merge_criterion", list(cfg_of(est)), est.merge_criterion)
+                        for _ in range(rng.randint(1, 3)):
+                            before = cfg_of(est)
+                            # the object held before the call may be changed in place (set_merge(tolerance=...)): snapshot it
+                            before_lit = [pv(v) for v in before]
+                            c1, t1 = rand_crit(), rng.choice([None, None, 0.0, 0.41])
+                            th1, b1 = rng.choice([None, None, 0.5]), rng.choice([None, None, 7])
+                            proxy.calls.clear()
+                            try:
+                                est.set_merge(c1, tolerance=t1, threshold=th1, branching_factor=b1)
+                                status = None
+                            except ValueError:
+                                status = "ERR"
+                            after = cfg_of(est)
+                            args = ["@" + x for x in before_lit] + [c1, t1, th1, b1, None]
+                            if status == "ERR":
+                                d.cmd("GENEXP tab=" + (";".join(f"{k}={v}" for k, v in proxy.calls.items()) or "-"))
+                                m = d.cmd("GEN BitBirch_set_merge " + " ".join(a[1:] if isinstance(a, str) and a.startswith("@") else pv(a) for a in args))
+                                impl = "err:ValueError " + " ".join(pv(v) for v in after)
+                                res.evaluations += 1
+                                cnt["BitBirch_set_merge"] = cnt.get("BitBirch_set_merge", 0) + 1
+                                if m != impl and res.disagreement is None:
+                                    res.disagreement = {"what": "generated BitBirch_set_merge differs (failing call)", "model": m[:300], "impl": impl[:300]}
+                            else:
+                                compare("BitBirch_set_merge", args, (None,) + after, exp_tab=proxy.calls)
+                    finally:
+                        M.np = np
             res.counters = cnt
             res.nontrivial = sum(cnt.values())
             res.traces = res.evaluations
